@@ -337,11 +337,11 @@ def threshold_case(ctx, case):
 
 def zero_ts_case(ctx, case):
     """execution timestamp 0 (the lowest one there is) is a timestamp like any other, for the single and the chain lock"""
-    now, (b, e) = case
+    now, (b, e) = case[0], case[1]
     seed = ctx.seed
     sk, pk = keys(seed)
     fields = sf(seed)
-    t = 0
+    t = case[2] if len(case) > 2 else 0
     env.Clock.now = now
     want = b <= t < e and t - now < THR
     n = 0
@@ -353,7 +353,7 @@ def zero_ts_case(ctx, case):
         n += 1
         ctx.state(('zero-ts', now, b, e, name))
         judge(ctx, [w, lock], {**fields, 'timestamp': t}, want, {'lock': name, 'block': 'timestamp zero'},
-              f'window [{b}, {e}) at t=0 with the clock at {now}', now)
+              f'window [{b}, {e}) at t={t} with the clock at {now}', now)
     ctx.evaluations += n - 1
 
 
@@ -441,8 +441,9 @@ def blocks(tier, seed):
         Block('custom_slack_threshold', [(n, thr) for n in range(0, 4 if q else 6) for thr in (10, 300, 61, 0, -1)], threshold_case,
               'single and chain locks (length 1..%d) through run_script with additional_flags ts_threshold in {10, 61, 300, 0, -1} x clock '
               'positions around it' % (3 if q else 5), nshards=32),
-        Block('timestamp_zero', [(now, w) for now in (0, 30, 1000, TNOW) for w in ((0, 1000), (0, 1), (1, 1000), (0, 0), (TNOW - 100, TNOW + 100))],
-              zero_ts_case, 'execution timestamp 0 x clock {0, 30, 1000, now} x five windows, single and chain lock', nshards=20),
+        Block('timestamp_zero', [(now, w) for now in (0, 30, 1000, TNOW) for w in ((0, 1000), (0, 1), (1, 1000), (0, 0), (TNOW - 100, TNOW + 100))] +
+              [(TNOW - d, (b0, 2 ** 31 - 1), TNOW) for d in (0, 59, 60, 3600, 86400) for b0 in (0, 1, 255, 256)],
+              zero_ts_case, 'execution timestamp 0 x clock {0, 30, 1000, now} x five windows; windows beginning at 0 / 1 / 255 / 256 with the timestamp 0..86400 s ahead of the clock; single and chain lock', nshards=20),
         Block('certificate_serialisation', VALS, cert_case, 'begin x end over boundary values x flag x key patterns; issued certificates with one field edited afterwards', nshards=len(VALS)),
     ]
 
